@@ -211,13 +211,18 @@ def mem_programs():
     return P
 
 
-def run_tlc_mem(ctx, p, dump=True, simulate=None, depth=None):
+def run_tlc_mem(ctx, p, dump=True, simulate=None, depth=None, out=True):
+    """out=False: DriverMem only (without the history of DELETE requests, which multiplies the states of the larger programs)"""
     name = f"DM_{p.name}"
-    mod = B.mc_module(p, name).replace("EXTENDS BatchDBLive", "EXTENDS DriverOut")
-    cfg = B.mc_cfg(p, B.ALL_AVOID, ["C10_Mem", "C10_MemState", "C10_Free", "C39_EndedAttemptsToldToStop"], []).replace("INIT Init", "INIT OInit").replace("NEXT Next", "NEXT ONext")
+    if out:
+        mod = B.mc_module(p, name).replace("EXTENDS BatchDBLive", "EXTENDS DriverOut")
+        cfg = B.mc_cfg(p, B.ALL_AVOID, ["C10_Mem", "C10_MemState", "C10_Free", "C39_EndedAttemptsToldToStop"], []).replace("INIT Init", "INIT OInit").replace("NEXT Next", "NEXT ONext")
+    else:
+        mod = B.mc_module(p, name).replace("EXTENDS BatchDBLive", "EXTENDS DriverMem")
+        cfg = B.mc_cfg(p, B.ALL_AVOID, ["C10_Mem", "C10_MemState", "C10_Free"], []).replace("INIT Init", "INIT MInit").replace("NEXT Next", "NEXT MNext")
     wd = tlc.prepare_dir(ctx.build / f"mem_{p.name}", ["batchdb"], {f"{name}.tla": mod, f"{name}.cfg": cfg})
     res = tlc.run(wd, name, f"{name}.cfg", workers=min(ctx.workers, 8), dump="graph" if dump and simulate is None else None,
-                  simulate=simulate, depth=depth, seed=ctx.seed + 3 if simulate else None, timeout=3000)
+                  simulate=simulate, depth=depth, seed=ctx.seed + 3 if simulate else None, timeout=3000 if ctx.quick else 12000)
     return res, wd
 
 
@@ -246,7 +251,7 @@ def replay_walk(ctx, p, steps, seed):
         impl.close()
 
 
-def run_memory_stage(ctx, budget_quick=25):
+def run_memory_stage(ctx, budget_quick=25, model_only_program=True):
     P = mem_programs()
     progs = ["mem1"] if ctx.quick else ["mem1", "mem2i"]
     total = 0
@@ -277,9 +282,9 @@ def run_memory_stage(ctx, budget_quick=25):
             ctx.violation(f"memreplay:{lab}:{','.join(t for t in touched if t in ('mfree', 'mst', 'inst', 'att', 'told'))}", {"program": n, **m})
         ctx.cov.setdefault("memory_replay", []).append({"program": n, "paths": nw, "edges_covered": len(covered), "edges": len(set(g.edges)),
                                                         "nodes": len(g.nodes), "edge_classes": ctotal, "edge_classes_exercised": cdone})
-    if not ctx.quick:
+    if not ctx.quick and model_only_program:
         p = P["mem2"]
-        res, wd = run_tlc_mem(ctx, p, dump=False)
+        res, wd = run_tlc_mem(ctx, p, dump=False, out=False)
         ctx.add_tlc(res, "DriverMem program mem2: exhaustive (model only)")
         for v in res.violations:
             ctx.violation(f"spec:{v.name}:mem2", {"trace": [h for h, _ in v.trace]})
